@@ -116,6 +116,47 @@ func genFrag(h *H) {
 		h.tag("bxd-plan:" + plan)
 		h.Run(Case{Op: "bxd_sched", A: map[string]string{"enc": e.name, "segs": segsStr(segs), "final": final, "sizes": strings.Join(sz, ",")}})
 	}
+	// the composed armored read stack, call by call: genuine armor of every type (plain, re-flowed,
+	// padded), mutated texts, truncations, trailing text (also with a further period), under every
+	// fragmentation plan and caller buffers from one byte to several blocks
+	for i := 0; i < nb; i++ {
+		typ := strconv.Itoa(h.rng.Intn(3))
+		payload := h.content(h.rng.Intn(150))
+		txt, _ := saltpack.Armor62Seal(payload, typOf[typ], []string{"", "KB", "Brand7"}[h.rng.Intn(3)])
+		b := []byte(txt)
+		chk := typ
+		switch h.rng.Intn(10) {
+		case 0:
+			b = []byte(reflow(h.rng, txt, 2))
+		case 1:
+			b = b[:h.rng.Intn(len(b)+1)]
+		case 2:
+			b[h.rng.Intn(len(b))] = []byte{'.', ' ', '!', 'z', '\n', 0x80}[h.rng.Intn(6)]
+		case 3:
+			b = append(b, []byte([]string{" \n ", "x", "more. text", "  >\n", "."}[h.rng.Intn(5)])...)
+		case 4:
+			chk = "none"
+		case 5:
+			chk = strconv.Itoa((h.rng.Intn(2) + 1 + int(typ[0]-'0')) % 3) // a checker of another type
+		case 6:
+			b = append([]byte(strings.Repeat(" \n", h.rng.Intn(40))), b...)
+		}
+		plan := fragPlans[h.rng.Intn(len(fragPlans))]
+		segs, _ := fragment(h.rng, b, plan)
+		final := "EOF"
+		if h.rng.Intn(6) == 0 {
+			final = "IO"
+		}
+		if h.rng.Intn(8) == 0 && len(segs) > 0 {
+			segs[h.rng.Intn(len(segs))].err = errOfName([]string{"EOF", "IO"}[h.rng.Intn(2)])
+		}
+		var sz []string
+		for k := 0; k < 14+len(payload); k++ {
+			sz = append(sz, strconv.Itoa([]int{1, 2, 5, 31, 32, 33, 64, 100, 4096}[h.rng.Intn(9)]))
+		}
+		h.tag("ad-plan:" + plan)
+		h.Run(Case{Op: "ad_sched", A: map[string]string{"chk": chk, "segs": segsStr(segs), "final": final, "sizes": strings.Join(sz, ",")}})
+	}
 	// sentences around the 8192-byte limit with aligned and unaligned fragmentations
 	for _, l := range []int{8190, 8191, 8192, 8193, 8200, 9000, 12000, 12300} {
 		txt := append(bytes.Repeat([]byte{' '}, l), []byte(".rest")...)
